@@ -25,7 +25,7 @@ theorem flac_saved_blocks_kept (B : Nat) (hB : 0 < B) (L : FlacC.Layout) (hL : F
 /-- THE composition: save a FLAC file with a Vorbis comment block holding `vendor` and the comment list `cs` (any keys
 without '=', any Unicode values, multi-valued keys, any order) among its blocks; the strict block walker finds a Vorbis
 comment block in the saved file and the strict Vorbis decoder (no framing bit in FLAC) returns exactly `vendor` and `cs` -/
-theorem flac_saved_comment_reads_back (B : Nat) (hB : 0 < B) (L : FlacC.Layout) (hL : FlacC.Good L) (blocks : List FlacC.Block)
+theorem flac_saved_comment_block_reads_back (B : Nat) (hB : 0 < B) (L : FlacC.Layout) (hL : FlacC.Good L) (blocks : List FlacC.Block)
     (pad : PadChoice) (h : ∀ b ∈ blocks, b.code < 127 ∧ b.data.length ≤ FlacC.maxSize)
     (vendor : List Nat) (cs : List Comment) (hv : ∀ x ∈ vendor, Utf8.Scalar x) (hvl : (Utf8.encode vendor).length < 256 ^ 4)
     (hn : cs.length < 256 ^ 4) (hc : ∀ c ∈ cs, CommentOK c)
